@@ -26,7 +26,7 @@ MANIFEST = {
     'technique': 'Lean 4 invariant proof by induction over histories (generic registry state machine); correspondence check on histories',
 }
 
-DOM_OPS = ['mk.dom\t0\ta\t5\t-\t-', 'mk.dom\t0\ta\t9\t-\t-', 'mk.dom\t0\ta*\t5\t-\t-', 'mk.dom\t0\ta*\t9\t-\t-',
+DOM_OPS = ['mk.dom\t0\t-\t5\t\t-', 'mk.dom\t0\t1\t5\t-\t-', 'mk.dom\t0\t1*\t9\t-\t-', 'mk.dom\t0\ta\t5\t-\t-', 'mk.dom\t0\ta\t9\t-\t-', 'mk.dom\t0\ta*\t5\t-\t-', 'mk.dom\t0\ta*\t9\t-\t-',
            'mk.dom\t0\ta*\t-\t-\t-', 'mk.dom\t0\ta\t-\t-\t-', 'mk.dom\t0\t-\t5\t-\t-', 'mk.dom\t0\td1\t5\t-\t-',
            'inv\th0', 'inv\th1', 'drop\th0', 'drop\th1']
 CPLX_PRE = ['mk.dom\t0\ta\t5\t-\t-', 'mk.dom\t0\tb\t5\t-\t-']
@@ -37,6 +37,8 @@ CPLX_OPS = ['mk.cplx\t0\tX\t-\th0 h1 + h0\t(.+)', 'mk.cplx\t0\tX\t-\th0 + h0 h1\
             # periodic strand order with a structure that is NOT invariant under the period
             'mk.cplx\t0\tX\t-\th0 h1 + h0 h1\t(.+.)', 'mk.cplx\t0\tX\t-\th0 h1 + h0 h1\t.(+).', 'mk.cplx\t0\tP\t-\th0 h1 + h0 h1\t.(+).',
             # isomers over the same strands: an inter-strand pair 5' of an intra-strand hairpin, and the hairpin first
+            # automatic names with an EMPTY prefix (numeric names), and a later request under the name the object reports
+            'mk.cplx\t0\t-\t\th0 h1\t..', 'mk.cplx\t0\t1\t-\th0 h1\t..', 'mk.cplx\t0\t1\t-\th1\t.',
             'mk.cplx\t0\tH\t-\th0 h0 h0 + h0\t(()+)', 'mk.cplx\t0\tW\t-\th0 h0 h0 + h0\t()(+)', 'mk.cplx\t0\t-\t-\th0 + h0 h0 h0\t(+)()']
 MR_PRE = CPLX_PRE + ['mk.cplx\t0\tA\t-\th0\t.', 'mk.cplx\t0\tB\t-\th1\t.', 'mk.cplx\t0\tC\t-\th0 h1\t..', 'mk.cplx\t0\tC2\t-\th0 h1\t()']
 MR_OPS = ['mk.macro\t0\t-\th4 h5', 'mk.macro\t0\t-\th5 h4', 'mk.macro\t0\tC\th5 h4', 'mk.rxn\t0\t-\topen\th2 h2\th4', 'mk.rxn\t0\t-\topen\th2\th4',
